@@ -9,6 +9,7 @@ import (
 	"encoding/json"
 	"fmt"
 	"os"
+	"os/exec"
 	"path/filepath"
 	"runtime"
 	"sort"
@@ -70,6 +71,9 @@ type Ctx struct {
 	transitions int64
 	traces      int64
 	exhaustive  bool
+	totalViol   int64
+	shard       *shardSpec
+	shardCalls  map[string]int
 	rule        []string
 	notes       []string
 }
@@ -266,6 +270,7 @@ func (s *Sub[C]) Run(ctx *Ctx, n int, gen func(i int) C) {
 						}
 						ctx.mu.Lock()
 						st.Violations++
+						ctx.totalViol++
 						ctx.viol = append(ctx.viol, violation{Sub: s.Name, Index: i, Case: raw, Msg: f.Msg})
 						// keep the list bounded: lowest indices per sub win
 						if len(ctx.viol) > 4096 {
@@ -337,6 +342,7 @@ func (c *Ctx) ReportViolation(sub string, index int, cs any, msg string) {
 		c.subOrder = append(c.subOrder, sub)
 	}
 	st.Violations++
+	c.totalViol++
 	c.viol = append(c.viol, violation{Sub: sub, Index: index, Case: raw, Msg: msg})
 	if len(c.viol) > 4096 {
 		trimViolations(c)
@@ -407,22 +413,76 @@ func caseKey(sub string, raw json.RawMessage) string {
 }
 
 // Finish writes evidence, replay files and exits with the contract's status.
+// confirmFresh re-executes a violation in fresh processes (5 runs). Package
+// state corrupted by an earlier violating case, or races between in-process
+// workers on state a mutated tree shares, cannot influence it. Returns
+// (reproduced every time, reproduced at least once).
+func confirmFresh(verifDir string, v violation, prop string) (bool, bool) {
+	exe, err := os.Executable()
+	if err != nil {
+		InternalError("cannot find own executable: %v", err)
+	}
+	dir := filepath.Join(outDir(verifDir), "replays")
+	os.MkdirAll(dir, 0o755)
+	tmp := filepath.Join(dir, fmt.Sprintf(".confirm-%d.json", os.Getpid()))
+	b, _ := json.Marshal(map[string]any{"property": prop, "sub": v.Sub, "case": v.Case})
+	if err := os.WriteFile(tmp, b, 0o644); err != nil {
+		InternalError("cannot write %s: %v", tmp, err)
+	}
+	defer os.Remove(tmp)
+	all, any := true, false
+	for k := 0; k < 5; k++ {
+		cmd := exec.Command(exe, "-replay", tmp, "-verif", verifDir)
+		cmd.Env = append(os.Environ(), "VERIF_SHARD=")
+		err := cmd.Run()
+		code := 0
+		if ee, ok := err.(*exec.ExitError); ok {
+			code = ee.ExitCode()
+		} else if err != nil {
+			InternalError("cannot run confirmation subprocess: %v", err)
+		}
+		switch code {
+		case 1:
+			any = true
+		case 0:
+			all = false
+		default:
+			InternalError("confirmation subprocess for %s exited %d", v.Sub, code)
+		}
+	}
+	return all && any, any
+}
+
+// Finish writes evidence, replay files and exits with the contract's status.
 func (c *Ctx) Finish(verifDir string) {
+	if c.shard != nil {
+		c.finishShard()
+	}
 	trimViolations(c)
 	kf := loadKnown(verifDir)
-	// Confirm each violation reproduces 5/5 (determinism guard).
+	recorded := len(c.viol)
 	var confirmed []violation
 	knownHits := map[string]bool{}
+	perSubConfirmed := map[string]int{}
+	perSubTried := map[string]int{}
+	dropped, flaky := 0, 0
 	for _, v := range c.viol {
-		rp := replayers[v.Sub]
-		if rp == nil {
+		if replayers[v.Sub] == nil {
 			InternalError("violation from unregistered sub %s", v.Sub)
 		}
-		for k := 0; k < 5; k++ {
-			f := rp(v.Case)
-			if f == nil {
-				InternalError("violation of %s (case %s) did not reproduce on re-run %d: %s", v.Sub, string(v.Case), k, v.Msg)
+		if perSubConfirmed[v.Sub] >= 3 || perSubTried[v.Sub] >= 64 {
+			continue
+		}
+		perSubTried[v.Sub]++
+		all, any := confirmFresh(verifDir, v, c.Prop)
+		if !all {
+			if any {
+				flaky++
+				c.Note(fmt.Sprintf("violation of %s reproduced only sometimes in fresh processes (dropped): %s", v.Sub, firstLine(v.Msg)))
+			} else {
+				dropped++
 			}
+			continue
 		}
 		key := c.Prop + " " + caseKey(v.Sub, v.Case)
 		if line, ok := kf.known[key]; ok {
@@ -432,20 +492,23 @@ func (c *Ctx) Finish(verifDir string) {
 			}
 			continue
 		}
+		perSubConfirmed[v.Sub]++
 		confirmed = append(confirmed, v)
 	}
+	if dropped > 0 {
+		c.Note(fmt.Sprintf("%d recorded failures did not reproduce in a fresh process (collateral of an earlier violating case in the same process) and were dropped", dropped))
+	}
+	if recorded > 0 && len(confirmed) == 0 && len(knownHits) == 0 {
+		c.writeEvidence(verifDir, 0, 0)
+		InternalError("%d failures were recorded but none reproduced 5/5 in fresh processes (machinery nondeterminism); first: %s: %s", recorded, c.viol[0].Sub, firstLine(c.viol[0].Msg))
+	}
 	if os.Getenv("VERIF_VERBOSE") != "" {
-		for _, v := range confirmed {
+		for _, v := range c.viol {
 			fmt.Printf("  [all] sub=%s index=%d case=%s: %s\n", v.Sub, v.Index, string(v.Case), firstLine(v.Msg))
 		}
 	}
 	var replayPaths []string
-	perSub := map[string]int{}
 	for _, v := range confirmed {
-		if perSub[v.Sub] >= 3 {
-			continue
-		}
-		perSub[v.Sub]++
 		h := sha256.Sum256(append([]byte(v.Sub), v.Case...))
 		name := fmt.Sprintf("%s-%s.json", c.Prop, hex.EncodeToString(h[:6]))
 		path := filepath.Join(outDir(verifDir), "replays", name)
@@ -459,10 +522,10 @@ func (c *Ctx) Finish(verifDir string) {
 		fmt.Printf("VIOLATION property=%s replay=%s\n", c.Prop, path)
 		fmt.Printf("  sub=%s index=%d: %s\n", v.Sub, v.Index, firstLine(v.Msg))
 	}
-	c.writeEvidence(verifDir, len(confirmed), len(knownHits))
+	c.writeEvidence(verifDir, int(c.totalViol), len(knownHits))
 	el := time.Since(c.Start).Seconds()
 	if len(confirmed) > 0 {
-		fmt.Printf("FAIL property=%s tier=%s violations=%d (distinct cases; %d replay files) wall=%.1fs\n", c.Prop, c.Tier, len(confirmed), len(replayPaths), el)
+		fmt.Printf("FAIL property=%s tier=%s failing-cases=%d confirmed-and-written=%d wall=%.1fs\n", c.Prop, c.Tier, c.totalViol, len(replayPaths), el)
 		os.Exit(1)
 	}
 	fmt.Printf("PASS property=%s tier=%s evaluations=%d states=%d transitions=%d exhaustive=%v wall=%.1fs\n",
